@@ -187,6 +187,47 @@ async fn round(
         return None
     }
 
+    // a remote child of q, played by the harness: its (pre-signed) list
+    // request is sent by several clients at once, so that the parent's
+    // status entry for one child is written concurrently
+    let remote_list: Option<Bytes> = {
+        let hs_dir = args.work.join(format!("hs{case}"));
+        let _ = std::fs::remove_dir_all(&hs_dir);
+        let hcfg = WorldCfg::new(&hs_dir).config();
+        let hs_storage = StorageSystem::new(hcfg.storage_uri.clone());
+        let built = krill::commons::crypto::KrillSignerBuilder::new(
+            &hs_storage,
+            Duration::from_secs(hcfg.signer_probe_retry_seconds),
+            &hcfg.signers,
+        ).with_default_signer(hcfg.default_signer())
+            .with_one_off_signer(hcfg.one_off_signer()).build();
+        match built {
+            Err(_) => None,
+            Ok(hs) => match hs.create_self_signed_id_cert() {
+                Err(_) => None,
+                Ok(id) => {
+                    let ki = id.public_key().key_identifier();
+                    let added = manager.ca_add_child(h("q"),
+                        api::admin::AddChildRequest {
+                            handle: h("rk").convert(),
+                            resources: rs("AS65019", "11.200.0.0/16", ""),
+                            id_cert: id,
+                        }, Actor::user("verif-client")).await;
+                    let msg = rpki::ca::provisioning::Message::list(
+                        h("rk").convert(), h("q").convert());
+                    match (added, hs.create_rfc6492_cms(msg, &ki)) {
+                        (Ok(_), Ok(cms)) => Some(cms.to_bytes()),
+                        _ => None,
+                    }
+                }
+            }
+        }
+    };
+    if remote_list.is_none() {
+        r.count("remote_child_setup_failed", 1);
+    }
+    let _ = std::fs::remove_dir_all(args.work.join(format!("hs{case}")));
+
     // ---- concurrent phase --------------------------------------------------
     let clients = rng.range(4, 12) as usize;
     let per_client = rng.range(3, 7) as usize;
@@ -195,12 +236,13 @@ async fn round(
     let mut joins = vec![];
     for c in 0..clients {
         let manager: Arc<KrillManager> = manager.clone();
+        let remote_list = remote_list.clone();
         let recs = recs.clone();
         let actor = actor.clone();
         let mut crng = Rng::new(rng.next());
         joins.push(tokio::spawn(async move {
             for seq in 0..per_client {
-                let choice = crng.weighted(&[34, 8, 10, 8, 6, 6, 16, 6, 6, 6]);
+                let choice = crng.weighted(&[34, 8, 10, 8, 6, 6, 16, 6, 6, 6, 12]);
                 let (kind, target, arg): (&str, &str, String) = match choice {
                     0 => {
                         let t = *crng.pick(&["c1", "c2", "p", "q"]);
@@ -224,7 +266,9 @@ async fn round(
                     7 => ("roll_init", "c2", String::new()),
                     8 => ("roll_activate", "c2", String::new()),
                     // the daily snapshot job comes due
-                    _ => ("snapshots_due", "", String::new()),
+                    9 => ("snapshots_due", "", String::new()),
+                    // the remote child of q calls in
+                    _ => ("remote_list", "q", format!("agent-{c}-{seq}")),
                 };
                 let t0 = Instant::now();
                 let res: Result<(), String> = match kind {
@@ -257,6 +301,12 @@ async fn round(
                         .map_err(|e| e.to_string()),
                     "roll_init" => manager.ca_keyroll_init(h("c2"),
                         actor.clone()).await.map_err(|e| e.to_string()),
+                    "remote_list" => match &remote_list {
+                        None => Ok(()),
+                        Some(b) => manager.rfc6492(
+                            h("q"), b.clone(), Some(arg.clone()), actor.clone()
+                        ).await.map(|_| ()).map_err(|e| e.to_string()),
+                    },
                     "snapshots_due" => {
                         krill::server::mq::TaskQueue::new(manager.storage())
                             .and_then(|tq| tq.schedule(
@@ -324,7 +374,7 @@ async fn round(
             ("roa_reject", true) => true,
             ("ca_info" | "routes_show" | "history" | "repo_stats"
              | "cas_stats" | "refresh_all" | "republish_all"
-             | "child_update" | "snapshots_due", false) => true,
+             | "child_update" | "snapshots_due" | "remote_list", false) => true,
             _ => false,
         };
         if bad {
